@@ -4,6 +4,7 @@ package c06
 import (
 	"bytes"
 	"compress/zlib"
+	"encoding/binary"
 	"fmt"
 	"io"
 	"reflect"
@@ -168,6 +169,16 @@ func payload(rt *rapid.T, n int) []byte {
 		over := 128 + 4 + 24 + len(desc)
 		if n-over >= 8 {
 			p := build.SimpleProfile(desc, n-over)
+			// the embedded bytes are returned as they are, whatever the profile's own size field says: sometimes
+			// the field is smaller or larger than the payload, sometimes extra bytes follow the profile
+			switch rapid.IntRange(0, 5).Draw(rt, "sizefield") {
+			case 0:
+				binary.BigEndian.PutUint32(p, uint32(rapid.IntRange(128, len(p)-1).Draw(rt, "declared")))
+			case 1:
+				binary.BigEndian.PutUint32(p, uint32(len(p)+rapid.IntRange(1, 1000).Draw(rt, "declaredmore")))
+			case 2:
+				p = append(p, gen.Payload(rt, "trailer", rapid.IntRange(1, 64).Draw(rt, "trailerlen"))...)
+			}
 			return p
 		}
 	}
@@ -357,6 +368,7 @@ func genJPEG(rt *rapid.T, maxICC int, exhaustPerm []int) Case {
 			size = rapid.IntRange(len(exhaustPerm), 4000).Draw(rt, "smallsize")
 		}
 		prof := payload(rt, size)
+		size = len(prof) // a payload may carry trailing bytes beyond the requested size
 		minC := (size + 65518) / 65519
 		maxC := size
 		if maxC > 255 {
